@@ -455,3 +455,13 @@ class P(Prop):
             return
         for dx, dy in ((0, 0), (1, 0), (-1, 0), (0, 1), (0, -1), (0.5, 0.5), (2, -1)):
             yield dict(case, q=[case["q"][0] + dx, case["q"][1] + dy])
+
+
+# ---- tie to the source by translation (tools/py2lean.py -> lean/TracklibVerif/Gen/Geometry.lean, regenerated on every run)
+P.tie_modules = ["TracklibVerif.Tie.C20"]
+P.theorems = P.theorems + [
+    ("TracklibVerif.Tie.C20", "TV.Tie.C20.tie_cartesienne", "the Lean translation of the CURRENT source of geometry.cartesienne equals the model's cartesienne on every list of >= 4 numbers"),
+    ("TracklibVerif.Tie.C20", "TV.Tie.C20.tie_cartesienne_short", "the translated cartesienne raises IndexError on every shorter list"),
+    ("TracklibVerif.Tie.C20", "TV.Tie.C20.tie_projection_droite", "the translation of the CURRENT source of geometry.projection_droite equals the model's projectionDroite on all arguments, exceptions included"),
+    ("TracklibVerif.Tie.C20", "TV.Tie.C20.tie_proj_segment", "the translation of the CURRENT source of geometry.proj_segment equals the model's projSegment on all arguments, exceptions included"),
+]
